@@ -53,6 +53,9 @@ type Base struct {
 	// AfterOp, if set, is called after every operation that completed on the
 	// inner store (before a CrashAfter/ErrAfter action takes effect).
 	AfterOp func(op string)
+	// OnInnerError, if set, is told about errors returned by the inner store
+	// itself (not injected ones).
+	OnInnerError func(op string, err error)
 	// HonourCtx makes every operation fail with the context's error when it
 	// is called with a context that is already done, as a network or SQL
 	// store does.
@@ -170,6 +173,9 @@ func (b *Base) Append(ctx context.Context, e *eventbus.Event) (eventbus.Offset, 
 		return "", err
 	}
 	off, err := b.Inner.Append(ctx, e)
+	if err != nil && b.OnInnerError != nil {
+		b.OnInnerError("append", err)
+	}
 	if err == nil {
 		b.done("append")
 		if perr := b.post(a, "append"); perr != nil {
